@@ -32,7 +32,7 @@ def norm_src(src):
     return r.strip() if isinstance(r, str) else r
 
 COVERED_TEMPLATES = {0, 1, 2, 5, 6, 7, 8, 12, 13, 14}
-UNCOVERED_OPS = ("rename_space", "set_param", "eval_item", "allow_none", "new_cells_src",
+UNCOVERED_OPS = ("set_param", "eval_item", "allow_none", "new_cells_src",
                  "new_cells_obj", "set_formula_obj", "set_param_obj", "new_space_obj")
 
 
@@ -238,6 +238,13 @@ class EditCorr:
                     t = self.by_src.get(norm_src(c.formula.source))
                     if t is not None:
                         self.note(op[3], t)
+            elif kind == "rename_space":
+                # `space.rename(new)`: `Edit.stepR` (the identities of the cells follow the relabelling)
+                if not isinstance(op[1], str) or not isinstance(op[2], str) or not op[1] or not op[2]:
+                    if acc:
+                        self.end(k, kind)
+                    return
+                line, want = "renamespace %s %s" % (op[1], op[2]), "acc" if acc else "rej"
             elif kind == "add_bases":
                 line, want = "addbases %s %s" % (op[1], csv(op[2])), "acc" if acc else "rej"
             elif kind == "remove_bases":
@@ -289,6 +296,14 @@ class EditCorr:
                 self.end(k, kind)
             return
         got = self.ask(pre + [line])[-1]
+        slots = got.endswith(" SLOTS")
+        if slots:
+            # a declared attribute slot lies in a relabelled space: outside the side condition of the rename theorems
+            # (`Edit.slotsFixed`; the code follows the object, the model the path)
+            got = got[:-len(" SLOTS")]
+            if acc and got == "acc":
+                self.end(k, "rename_space:slots")
+                return
         uncovered = got.endswith(" UNCOVERED")
         if uncovered:
             got = got[:-len(" UNCOVERED")]
@@ -307,6 +322,27 @@ class EditCorr:
             self.alive = False
             return
         self.check_obs(live, k, out, hist_of, line.split(" ")[0])
+        if kind == "rename_space" and acc and self.alive:
+            self.check_renamed_nodes(live, k, op, out, hist_of)
+
+    def check_renamed_nodes(self, live, k, op, out, hist_of):
+        """`C02.covered_rename_leaves_nothing_of_the_renamed_spaces`: right after an accepted rename no cells of the
+        renamed space or of a space below it has a node in the trace graph - in the machine and in modelx"""
+        new = op[1].rpartition(".")[0]
+        new = (new + "." if new else "") + op[2]
+        inside = lambda nm: nm.startswith(new + ".")     # noqa
+        want = ",".join(sorted(x for x in self.ask(["nodes"])[-1].split(",") if x and inside(x)))
+        names = set()
+        for n in live.m._impl.tracegraph.nodes:
+            try:
+                names.add(n[0].get_fullname(omit_model=True))
+            except Exception:   # noqa
+                pass
+        got = ",".join(sorted(x for x in names if inside(x)))
+        self.compared += 1
+        if got != want:
+            out.disagree(hist_of(k), k, "nodes:" + want, "nodes:" + got, layer="edit:nodes-after-renamespace")
+            self.alive = False
 
     def check_obs(self, live, k, out, hist_of, what):
         want = held(live.m)
@@ -390,6 +426,50 @@ def scenarios():
                 for e in edits:
                     ee = [[(1 - (fc if o[2] == "f" else gc)) if x == "FLIP" else x for x in o] for o in e]
                     cases.append([list(o) for o in base] + [["evalall"]] + ee + [["evalall"]])
+    return cases
+
+
+def rename_scenarios():
+    """Scenario family `space.rename`: a parent `P` (cells `k`, `m`) with the child `P.B` (reference `s`, `f` reading it,
+    `g` calling `f`, `h` calling `g`), sub spaces `C(P.B)` and `D(C)` elsewhere; `f`, `g` cached or uncached; inputs in
+    the renamed tree and outside; everything evaluated; then a rename of the child / of the parent (recursive) / of a
+    sub space, refused renames, a rename back, a rename onto the name of a formerly deleted space (the tables still
+    carry its identities), edits after the rename; everything evaluated again.  Compared after every step: accept /
+    refuse, evaluation results, held elements with input marks (the renamed tree loses its inputs), and that no cells
+    of the renamed tree keeps a node in the trace graph."""
+    F = lambda i, k=1, a="f", r="s": (i, k, a, r, "X")     # noqa
+    EA = ["evalall"]
+    edits = [
+        [["rename_space", "P.B", "Z"]],
+        [["rename_space", "P", "Z"]],
+        [["rename_space", "C", "Z"]],
+        [["rename_space", "D", "Z"]],
+        [["rename_space", "P.B", "k"], ["rename_space", "P.B", "B"], ["rename_space", "C", "D"], ["rename_space", "C", "for"]],
+        [["rename_space", "P.B", "Z"], EA, ["rename_space", "P.Z", "B"]],
+        [["rename_space", "P", "Z"], ["new_space", "-", "P", []], ["new_cells", "P", "k", F(0, 9)], EA,
+         ["rename_space", "Z.B", "Y"]],
+        [["rename_space", "P.B", "Z"], EA, ["set_formula", "P.Z", "f", F(6, 3)]],
+        [["rename_space", "P.B", "Z"], EA, ["set_ref", "P.Z", "s", 5], EA, ["del_space", "P.Z"]],
+        [["new_space", "P", "Z", []], ["new_cells", "P.Z", "f", F(0, 8)], ["new_cells", "P.Z", "q", F(0, 6)], EA,
+         ["del_space", "P.Z"], ["rename_space", "P.B", "Z"]],
+        [["rename_space", "P", "Z"], EA, ["remove_bases", "C", ["Z.B"]]],
+        [["set_value", "C", "h", 2, 31], ["rename_space", "P.B", "Z"], EA, ["rename_space", "C", "Y"]],
+    ]
+    cases = []
+    for fc in (1, 0):
+        for gc in (1, 0):
+            base = [["new_space", "-", "P", []], ["new_cells", "P", "k", F(0, 4)], ["set_ref", "P", "s", 2],
+                    ["new_cells", "P", "m", F(2, 1)], ["new_space", "P", "B", []], ["set_ref", "P.B", "s", 1],
+                    ["new_cells", "P.B", "f", F(2, 1)], ["new_cells", "P.B", "g", F(1, 1, "f")],
+                    ["new_cells", "P.B", "h", F(1, 2, "g")], ["new_space", "-", "C", ["P.B"]],
+                    ["new_space", "-", "D", ["C"]]]
+            if not fc:
+                base.append(["set_cached", "P.B", "f", 0])
+            if not gc:
+                base.append(["set_cached", "P.B", "g", 0])
+            base += [["set_value", "P.B", "h", 1, 25], ["set_value", "P", "k", 1, 26], ["set_value", "D", "h", 1, 27]]
+            for e in edits:
+                cases.append([list(o) for o in base] + [EA] + [list(o) for o in e] + [EA])
     return cases
 
 
@@ -531,6 +611,11 @@ def run_family(ctx, out, n_quick=90, n_thorough=2500, ops_range=(14, 30)):
     pool = covered_motifs()
     for ops in scenarios():
         run_history(ops, out, stats)
+        if out.disagreements:
+            return stats
+    for ops in rename_scenarios():
+        run_history(ops, out, stats)
+        stats["edit_rename_scenarios"] += 1
         if out.disagreements:
             return stats
     for ops in shadow_scenarios():
